@@ -538,9 +538,10 @@ def do_call(aa, ci, grid, sh, pool=None):
                 py_ok = False; notes.append(f"function received a {type(obj.seen_obj).__name__} for a {type(grid).__name__} input")
             elif k != "irr" and obj.seen_obj.mask is not grid.mask:
                 py_ok = False; notes.append("function received a grid on a different mask object")
+        fits = not any(sf[0] == "drop" for f in u["fs"] for sf in f[1:])      # the function returned one entry per coordinate
         for x in (r[1] if isinstance(r[1], list) else [r[1]]):
             # "one entry per unmasked pixel in slim order": the container itself, not only its .slim view
-            if type(x).__name__ in ("Array2D", "Grid2D", "VectorYX2D", "Array1D") and hasattr(x, "mask"):
+            if fits and type(x).__name__ in ("Array2D", "Grid2D", "VectorYX2D", "Array1D") and hasattr(x, "mask"):
                 want = (int(x.mask.pixels_in_mask),) + ((2,) if type(x).__name__ in ("Grid2D", "VectorYX2D") else ())
                 if tuple(x.array.shape) != want:
                     py_ok = False; notes.append(f"returned {type(x).__name__} stores an array of shape {tuple(x.array.shape)}, not one entry per unmasked pixel {want}")
